@@ -19,7 +19,7 @@ from .. import gen, jwegen as g
 from ..trace import Tracer, rets
 from refjose import jwe as rjwe
 from refjose.keys import RefKey, RefKeyError, EC_SIZES, OKP_SIZES
-from refjose.prim import b64u_dec, b64u_dec_lenient, b64_int, CURVES
+from refjose.prim import b64u_dec, b64u_enc, b64u_dec_lenient, b64_int, CURVES
 
 LEVEL = "exploration"
 RULE = ("histories of N encryptions (N=1000 quick / 10000 thorough per configuration; 256 / 2000 for the slow ones) with one recipient key, equal header "
@@ -425,6 +425,50 @@ def requested_names(ctx):
                 ctx.violation("wrong-size:generated-oct", f"OctKey.generate_key({size}) generated {got} bits", {"requested": size})
 
 
+def short_salt_inputs(ctx):
+    """a "p2s" the caller names in the header: whatever the caller's reasons, a JWE that leaves the library carries a PBES2 salt input of at least 8
+    octets (RFC 7518, 4.8.1.1) - a shorter one is refused or replaced"""
+    j = J.load()
+    key = j.key(gen.new_oct(256))
+    for alg in ("PBES2-HS256+A128KW", "PBES2-HS384+A192KW", "PBES2-HS512+A256KW"):
+        for octets in (0, 1, 4, 7, 8, 16):
+            p2s = b64u_enc(bytes(range(1, octets + 1)))
+            for form in ("compact", "flattened-recipient", "general-protected"):
+                ctx.ev()
+                hdr = {"alg": alg, "enc": "A128GCM", "p2s": p2s}
+                if form == "compact":
+                    o = call(j.jwe.encrypt_compact, dict(hdr), b"c18 salt", key, algorithms=[alg, "A128GCM"])
+                else:
+                    cls = j.jwe.FlattenedJSONEncryption if form.startswith("flattened") else j.jwe.GeneralJSONEncryption
+
+                    def f():
+                        if form.endswith("recipient"):
+                            obj = cls({"enc": "A128GCM"}, b"c18 salt")
+                            obj.add_recipient({"alg": alg, "p2s": p2s}, key)
+                        else:
+                            obj = cls({"enc": "A128GCM", "p2s": p2s}, b"c18 salt")
+                            obj.add_recipient({"alg": alg}, key)
+                        return j.jwe.encrypt_json(obj, None, algorithms=[alg, "A128GCM"])
+                    o = call(f)
+                ctx.count("caller_salt_cases")
+                ctx.nontrivial(("caller-salt", alg, octets, form))
+                ctx.cell("caller-salt", alg, octets, "produced" if o.ok else "refused")
+                if not o.ok:
+                    if octets >= 8:
+                        ctx.open("caller-chosen-salt-refused")
+                    continue
+                prot, rl, iv = token_parts(o.value)
+                used = {**prot, **(rl[0][0] or {})}.get("p2s")
+                try:
+                    n = len(b64u_dec(used))
+                except Exception:
+                    n = -1
+                ctx.count("values_monitored")
+                if n < 8:
+                    ctx.violation("pbes2-salt-input-shorter-than-8-octets:taken-from-the-header", f"{alg} ({form}): a JWE was produced with the salt input {used!r} ({n} octets) "
+                                  f"named by the caller's header", {"short_salt_inputs": True, "alg": alg, "form": form, "p2s": p2s})
+
+
 def forked_processes(ctx, mon):
     """processes created by fork() after the parent has already encrypted: their IV / CEK / epk / salt values must differ too"""
     import os
@@ -538,6 +582,8 @@ def run_shard(ctx):
             stale_header_history(mon, 40 if ctx.tier == "quick" else 400)
         if ctx.shard == 3:
             requested_names(ctx)
+        if ctx.shard == 5:
+            short_salt_inputs(ctx)
         cs = configs(ctx.tier)
         for idx, c in enumerate(cs):
             if idx % ctx.nshards != ctx.shard:
@@ -581,6 +627,9 @@ REQUIRE = [("forked_children", 3, "forked child processes compared"), ("encrypti
 
 
 def replay(ctx, case):
+    if case.get("short_salt_inputs"):
+        J.load()
+        return short_salt_inputs(ctx)
     J.load()
     J.register_drafts()
     mon = Mon(ctx)
